@@ -233,6 +233,7 @@ def run_impl(lines, binary, stack=None, per_case_timeout=5.0, threads=None, base
     (`crash <status>` / `hang`) and the run resumes with the next case"""
     results = []
     start = 0
+    hangs = 0
     env = dict(os.environ)
     if stack: env["HARNESS_STACK"] = str(stack)
     while start < len(lines):
@@ -252,6 +253,12 @@ def run_impl(lines, binary, stack=None, per_case_timeout=5.0, threads=None, base
         # the process ended (or hung) inside case `start`
         results.append("hang" if hung else "crash rc=%s" % rc)
         start += 1
+        if hung:
+            hangs += 1
+            if hangs >= 3:
+                # three hangs are a finding already; every further one would cost a full timeout: the rest of this batch is not run
+                results.extend(["skipped-after-hangs"] * (len(lines) - start))
+                break
     return results
 
 def run_impl_threads_raw(lines, binary, n, rounds, timeout=300):
